@@ -21,6 +21,7 @@
 From Coq Require Import ZArith List Bool.
 From CSS Require Import Base.Sx Base.PyList ClassDB.Model Searcher.Model Searcher.Run Searcher.Slicing Searcher.Step.
 From CSS Require Queue.Model.
+From CSS Require Searcher.Contracts Searcher.QueuePack Searcher.Deciders.
 Import ListNotations.
 Open Scope Z_scope.
 
@@ -98,6 +99,16 @@ Definition dec_call (c : sx) : call :=
   let m := sx_Z (sx_nth c 0) in
   (if m <? 0 then None else Some m, sx_Zs (sx_nth c 1), map sx_bool (sx_list (sx_nth c 2))).
 
+Definition sev_packets (es : list sevent) : list packet :=
+  flat_map (fun e => match e with SPacket p _ => [p] | _ => [] end) es.
+Definition hyps_c17 (T : table) (mode : Z) (inf ini : list Z) (exps : list (list Z)) (es : list sevent) : sx :=
+  let pack := Searcher.QueuePack.pack_of inf ini exps in
+  let m0 := mode =? 0 in
+  let cap := fun _ : Z => true in
+  L (map of_bool
+       ( (m0 && Searcher.Deciders.table_hyps_b T pack) :: (m0 && Searcher.Deciders.find_rule_hyps_b T pack cap) :: m0
+         :: tl (tl (Searcher.Deciders.hyp_bits T pack cap (sev_packets es))))).
+
 Definition run_steps (mult : Z) (calls : list sx) (tp : sx) : sx :=
   let h := sx_Zs (sx_nth tp 0) in
   let g n := nth n h 0 in
@@ -111,7 +122,7 @@ Definition run_steps (mult : Z) (calls : list sx) (tp : sx) : sx :=
   let exps := map sx_Zs (sx_list (sx_nth tp 7)) in
   let ans := map sx_bool (sx_list (sx_nth tp 8)) in
   let '(s0, ev0) := init_sstate T mode F inf ini exps ans (g 3%nat) in
-  let '(outs, s1, _, _, _) := run_calls_st T mode F ev inf ini exps mult s0 0 0 (map dec_call calls) in
+  let '(outs, s1, sevs, _, _) := run_calls_st T mode F ev inf ini exps mult s0 0 0 (map dec_call calls) in
   let c := core s1 in
   L [ enc_events ev0; L (map enc_outcome2 outs);
       L [ I (enc_status (stat c)); of_nat (length (answers c));
@@ -120,7 +131,14 @@ Definition run_steps (mult : Z) (calls : list sx) (tp : sx) : sx :=
           L (map enc_key (if g 4%nat =? 0 then rstore c else key_sort (rstore c)));
           L (map enc_key (if g 4%nat =? 0 then estore c else key_sort (estore c)));
           of_Zs (isort (dedup (already c)));
-          enc_queue (que s1) ] ].
+          enc_queue (que s1) ];
+      (* added later (compatible): the deciders of Searcher/Deciders.v on THIS table, pack = pack_of inferral initial
+         expansion, the packets = the ones this run handed out:
+         ( mode=0 && table_hyps_b   mode=0 && find_rule_hyps_b (every strategy can be an equivalence)   mode=0
+           pe_contractb sym_contractb sym_unaryb items_plainb packets_inb cap_okb rev_okb )
+         first bit: the hypotheses of C17_resumed_search_gives_add_hist, second: of C17_resumed_search_find_rule_total,
+         4th && 5th: of C17_resumed_search_emptiness_truthful; packets_inb is true by C17's search_in_pack *)
+      hyps_c17 T mode inf ini exps sevs ].
 
 Definition run_c17 (inp : sx) : sx :=
   (* a call flagged (4th field) as ended by an exception of the expansion is outside the control-flow model *)
